@@ -60,6 +60,13 @@ def account(chk, obs):
     chk.traces += 1 if o['hasiter'] else 0
     chk.evaluations += 4 * len(o['dnas']) + len(o['iter'])
     chk.count('templates')
+    if o['tmpl']['h'] == 'tobj' or any(x.get('h') == 'tobj' for x in o['tmpl'].get('items', [])):
+      chk.count('typed_templates_bound' if not o['bind_rejected'] else 'typed_templates_refused')
+    chk.count('purity_stages', len(o['json']))
+    chk.count('histories_filtered_then_unfiltered' if o['wh'] != 'all' and o['hashist'] else
+              ('histories_unfiltered_then_filtered' if o['hashist'] else 'no_history'))
+    if o['json'] and o['tmpl']['h'] in ('oneof', 'manyof'):
+      chk.count('root_placeholder_purity' + ('_filtered' if o['wh'] != 'all' else ''))
     chk.count('where:' + o['wh'])
     chk.count('decoded', len(o['dnas']))
     chk.count('iterated_values', len(o['iter']))
@@ -127,7 +134,9 @@ def run(chk):
   c = chk.counters
   for need in ['templates', 'where:all', 'where:oneof', 'where:choices', 'where:many3', 'decoded', 'iterated_values',
                'iterations', 'decoded_with_placeholder_left', 'encoded_ok', 'kind:oneof', 'kind:manyof', 'kind:float',
-               'kind:custom', 'kind:dict', 'kind:list', 'kind:obj', 'kind:conditional', 'kind:nested_choice']:
+               'kind:custom', 'kind:dict', 'kind:list', 'kind:obj', 'kind:tobj', 'kind:conditional', 'kind:nested_choice',
+               'typed_templates_bound', 'typed_templates_refused', 'purity_stages', 'histories_filtered_then_unfiltered',
+               'histories_unfiltered_then_filtered', 'root_placeholder_purity', 'root_placeholder_purity_filtered']:
     chk.require(c.get(need, 0) > 0, f'vacuous: counter {need} is zero')
 
 
@@ -138,7 +147,7 @@ def replay(chk, path):
   chk.seed = v.get('seed', 0)
   entries, r1 = tlc.export_json('HyperExport', cfg['export'], env={'SALT': str(chk.seed)}, timeout=900)
   chk.add_tlc(r1, count_states=False)
-  sel = [e for e in entries if e['tmpl'] == d['template_json'] and e['wh'] == d['where_filter']]
+  sel = [e for e in entries if e['tmpl'] == d['template_json'] and e['wh'] == d['where_filter']][:1]
   chk.require(len(sel) == 1, 'replay: template not found in the exported universe')
   obs, fails = evaluate(chk, sel, dict(cfg, law_chunks=1), 'c13-replay')
   account(chk, obs)
